@@ -45,6 +45,7 @@ type Prog struct {
 	splices      map[*Fn]*spliced
 	owners       map[token.Pos]*Fn
 	hbinds       map[*Fn]map[*types.Var][]Bind
+	constGlobals map[*types.Var]bool
 	helperCalled map[*Fn]bool
 	writes       map[*Fn]*WriteSet
 	deps         map[string]*types.Package
